@@ -25,6 +25,7 @@ var noEffectPrefixes = []string{
 	"(*github.com/0chain/common/core/common.Error).Error", "0chain.net/core/util.", "errors.Is", "errors.As", "errors.Unwrap",
 	"github.com/pkg/errors.Wrap", "github.com/pkg/errors.New", "github.com/pkg/errors.Errorf", "github.com/pkg/errors.Wrapf",
 	"(github.com/0chain/common/core/currency.Coin).", "github.com/0chain/common/core/currency.",
+	"0chain.net/core/viper.Get", "0chain.net/core/config.", "(*0chain.net/core/viper.Viper).Get",
 }
 
 // results of these are known to be non-nil
@@ -129,6 +130,24 @@ func (vc *VC) call(in ssa.Instruction, cc *ssa.CallCommon, h *Heap) []string {
 		return vc.builtin(b, cc, h, resT)
 	}
 	name := calleeName(cc)
+	// at-call assertions of the function under contract
+	if root := vc.root(); vc.parent == nil && root.ct != nil && len(root.ct.AtCall) > 0 {
+		short := ""
+		if f := cc.StaticCallee(); f != nil {
+			short = f.Name()
+		} else if cc.IsInvoke() {
+			short = cc.Method.Name()
+		}
+		if cls, ok := root.ct.AtCall[short]; ok {
+			ev := vc.newEval(vc.fn, *h, vc.heap0, nil)
+			blk := in.Block()
+			ev.resolve = func(n string) (EVal, bool) { return vc.resolveLocalAtBlock(ev, n, blk) }
+			for i, c := range cls {
+				vc.goalClause(ev, c, fmt.Sprintf("%s/at-call@%s#%d@%s", root.key, short, i+1, vc.pos(in.Pos())), "at-call", vc.curR, vc.pos(in.Pos()))
+			}
+			root.atCallSeen[short]++
+		}
+	}
 	// mutexes
 	if op := isLockOp(name); op != "" {
 		a := ptrAddr(vc.val1(cc.Args[0]))
@@ -160,6 +179,37 @@ func (vc *VC) call(in ssa.Instruction, cc *ssa.CallCommon, h *Heap) []string {
 		}
 		return nil
 	}
+	// sync/atomic on plain integers: sequential semantics
+	if strings.HasPrefix(name, "sync/atomic.") {
+		op := strings.TrimPrefix(name, "sync/atomic.")
+		if len(cc.Args) >= 1 {
+			if pt, ok := cc.Args[0].Type().Underlying().(*types.Pointer); ok && isInteger(pt.Elem()) {
+				a := ptrAddr(vc.val1(cc.Args[0]))
+				cur := vc.load(*h, a, pt.Elem())[0]
+				switch {
+				case strings.HasPrefix(op, "Load"):
+					r := vc.define("atomic", "Int", cur)
+					vc.assumeLoadRanges([]string{r}, pt.Elem(), *h)
+					return []string{r}
+				case strings.HasPrefix(op, "Store"):
+					vc.store(h, a, pt.Elem(), []string{vc.val1(cc.Args[1])})
+					return nil
+				case strings.HasPrefix(op, "Add"):
+					nv := vc.define("atomic", "Int", vc.wrap("(+ "+cur+" "+vc.val1(cc.Args[1])+")", pt.Elem()))
+					vc.store(h, a, pt.Elem(), []string{nv})
+					return []string{nv}
+				case strings.HasPrefix(op, "Swap"):
+					old := vc.define("atomic", "Int", cur)
+					vc.store(h, a, pt.Elem(), []string{vc.val1(cc.Args[1])})
+					return []string{old}
+				case strings.HasPrefix(op, "CompareAndSwap"):
+					okT := vc.define("cas", "Bool", eq(cur, vc.val1(cc.Args[1])))
+					vc.store(h, a, pt.Elem(), []string{ite(okT, vc.val1(cc.Args[2]), cur)})
+					return []string{okT}
+				}
+			}
+		}
+	}
 	var callee *ssa.Function
 	var closure *ssa.MakeClosure
 	if mc, ok := cc.Value.(*ssa.MakeClosure); ok {
@@ -190,6 +240,17 @@ func (vc *VC) call(in ssa.Instruction, cc *ssa.CallCommon, h *Heap) []string {
 		vc.root().callees["iface:"+key] = true
 		vc.havocAll(h, "uncontracted interface call "+key+" at "+vc.pos(in.Pos()))
 		return fresh()
+	}
+	if strings.HasPrefix(name, "(*go.uber.org/zap.Logger).") {
+		switch strings.TrimPrefix(name, "(*go.uber.org/zap.Logger).") {
+		case "Panic", "Fatal":
+			vc.panicSite(in.Pos(), "logging.Logger."+strings.TrimPrefix(name, "(*go.uber.org/zap.Logger)."))
+			vc.curR = "false"
+			return fresh()
+		case "DPanic":
+			// panics only in development builds: a panic site for nopanic, but execution continues
+			vc.panicSite(in.Pos(), "logging.Logger.DPanic")
+		}
 	}
 	if name != "" && hasAnyPrefix(name, noEffectPrefixes) {
 		return vc.effectFree(name, cc, h, resT)
